@@ -40,9 +40,10 @@ type logTap struct {
 	mkdirFailed   atomic.Int64 // "Create blocklist directory failed" (refresh ended early)
 	persistFailed atomic.Int64 // "Blocklist persist failed"
 	readFailed    atomic.Int64 // "Read ... blocklists ... failed"
+	wake          chan struct{}
 }
 
-var tap logTap
+var tap = logTap{wake: make(chan struct{}, 1)}
 
 func (t *logTap) Write(b []byte) (int, error) {
 	switch {
@@ -54,6 +55,12 @@ func (t *logTap) Write(b []byte) (int, error) {
 		t.persistFailed.Add(1)
 	case bytes.Contains(b, []byte("blocklists failed")), bytes.Contains(b, []byte("blocklists after refresh failed")):
 		t.readFailed.Add(1)
+	default:
+		return len(b), nil
+	}
+	select {
+	case t.wake <- struct{}{}:
+	default:
 	}
 	return len(b), nil
 }
@@ -91,13 +98,27 @@ func newInstance(dir string, cfgBlock, cfgWhite []string) *blocklist.BlockList {
 func waitRefreshed(max time.Duration) bool {
 	deadline := time.Now().Add(max)
 	for {
-		if tap.loaded.Load()+tap.mkdirFailed.Load()+tap.readFailed.Load() >= expectedLoads.Load() {
+		if refreshedNow() {
 			return true
 		}
 		if time.Now().After(deadline) {
 			return false
 		}
 		time.Sleep(10 * time.Millisecond)
+	}
+}
+
+func refreshedNow() bool {
+	return tap.loaded.Load()+tap.mkdirFailed.Load()+tap.readFailed.Load() >= expectedLoads.Load()
+}
+
+// waitRefreshedNoTimer is waitRefreshed without any timer (timers make the Go
+// runtime write to its netpoll eventfd, which would pollute the write(2)
+// ordinal the child's strace injection counts). The parent's process timeout
+// is the watchdog.
+func waitRefreshedNoTimer() {
+	for !refreshedNow() {
+		<-tap.wake
 	}
 }
 
